@@ -49,6 +49,36 @@ type c10Report struct {
 	ErrorsSample []string         `json:"errors_sample"`
 }
 
+// c10Tempting is a host record whose methods create, remove and sync files, start a
+// process and open a connection. No script may bring them to run.
+type c10Tempting struct {
+	Count int
+	Path  string
+}
+
+func (t c10Tempting) Archive() error { return os.WriteFile(t.Path+".archived", []byte("x"), 0o644) }
+func (t c10Tempting) Remove() error  { return os.Remove(t.Path) }
+func (t c10Tempting) Spawn() error   { return exec.Command("/bin/true").Run() }
+func (t *c10Tempting) Dial() error {
+	// (raw system calls: the net package would bring the C resolver into the worker)
+	fd, err := syscall.Socket(syscall.AF_INET, syscall.SOCK_STREAM, 0)
+	if err != nil {
+		return err
+	}
+	err = syscall.Connect(fd, &syscall.SockaddrInet4{Port: 9, Addr: [4]byte{127, 0, 0, 1}})
+	syscall.Close(fd)
+	return err
+}
+func (t *c10Tempting) Sync() string {
+	f, err := os.OpenFile(t.Path+".synced", os.O_CREATE|os.O_WRONLY, 0o644)
+	if err != nil {
+		return err.Error()
+	}
+	f.Sync()
+	f.Close()
+	return "synced"
+}
+
 // hostile argument matrix: path-, URL- and command-like strings and other types
 func c10Args(canary string) []object.Object {
 	strs := []string{"VERIF_A", "VERIF_B", "VERIF_C", "VERIF_D", "VERIF_B_FILE", "VERIF_A_FILE", "/etc/passwd", canary, canary + ".new", "file:///etc/passwd", "file://" + canary, "127.0.0.1:1", "http://127.0.0.1:1/x", "|id", "; touch " + canary + ".cmd", "$(id)", "`id`",
@@ -270,6 +300,21 @@ func c10Worker(args []string) {
 		if evr, err := eng.New(script, eng.Options{NoHook: true, NoOptimize: i%2 == 0}); err == nil {
 			evr.Exec(map[string]interface{}{"Path": canary})
 			rep.Calls++
+		}
+	}
+	// objects whose type has methods that reach the outside world: a script can name them
+	// (they are no fields: the names read as null), nothing the host did not register runs
+	marker("CALL/objects-with-methods/0")
+	for i, script := range []string{
+		`return [Archive, Remove, Spawn, Dial, Sync, Count];`, `if (Count > 0 && Archive) { return 1; } return 0;`, `x = Spawn; y = Dial; return [x, y];`,
+		`foreach m in [Archive, Remove, Spawn] { z = m; } return z;`, `function f(a) { return a; } return [f(Archive), f($Remove), Path.Remove, len(Sync)];`, `switch (Spawn) { case Dial { return 1; } default { return Remove; } }`,
+	} {
+		for _, obj := range []interface{}{c10Tempting{Count: 2, Path: canary}, &c10Tempting{Count: 2, Path: canary}} {
+			if evr, err := eng.New(script, eng.Options{Budget: 100000, NoOptimize: i%2 == 0}); err == nil {
+				evr.Exec(obj)
+				evr.RunBool(obj)
+				rep.Calls++
+			}
 		}
 	}
 	// thousands of different patterns, strings and keys in one process (whatever the engine
